@@ -1,7 +1,7 @@
 (* RunSchema.v — one executable comparison per (schema, values) case: model parser and
    evaluator, reference semantics, and the implementation's recorded observations. *)
 From Coq Require String. Import String.StringSyntax.
-From Statham.Model Require Import Str Json Elem Validate Names Parser Canon Spec6 RunHelpers.
+From Statham.Model Require Import Str Json Elem Validate Names Parser Canon Spec6 RunHelpers Unsupported.
 From Statham.Generated Require Gen_unicode Gen_reserved Gen_constants Gen_parser_tables.
 Local Open Scope string_scope.
 Local Open Scope list_scope.
@@ -78,3 +78,17 @@ Definition show_case (c : scase) :=
                                    | None => None end)) (sc_vals c)
    | PErr _ => []
    end).
+
+(* C20: 1 parse observation differs (model vs implementation); 6 the implementation returned
+   an element although a refused keyword occurs at an interpreted position (Unsupported.v);
+   8 the implementation raised the not-implemented error although none occurs;
+   7 the model itself returned an element there (would contradict C20_never_silently_ignored). *)
+Definition run_case20 (c : scase) : list nat :=
+  let r := parse_element (cfg_of c) (sc_schema c) [] in
+  let p := canon_parse r in
+  let uses := uses_unsupported Gen_constants.unsupported_keywords (sc_schema c) in
+  let ti := tag_of (sc_parse c) in
+  (if json_eqb p (sc_parse c) then [] else [1]) ++
+  (if uses && str_eqb ti (s_ "ok") then [6] else []) ++
+  (if negb uses && str_eqb ti (s_ "NotImplemented") then [8] else []) ++
+  (match r with POk _ => if uses then [7] else [] | _ => [] end).
